@@ -23,7 +23,8 @@ pub const OP_LOAD: u8 = 0;
 pub const OP_STORE: u8 = 1;
 pub const OP_RMW: u8 = 2;
 pub const OP_CAS: u8 = 3;
-pub const OP_NAMES: [&str; 9] = ["load", "store", "rmw", "cas", "lock", "try_lock", "read", "write", "other"];
+pub const OP_AFTER: u8 = 9;
+pub const OP_NAMES: [&str; 10] = ["load", "store", "rmw", "cas", "lock", "try_lock", "read", "write", "other", "(done)"];
 
 /// Payload used to unwind simulated threads when a run is cut short.
 pub struct SimAbort;
@@ -349,7 +350,7 @@ impl Shared {
         if next != me {
             st.switches += 1;
             let (lop, laddr) = st.last[me];
-            if !is_blocked && lop == OP_LOAD && laddr == addr && addr != 0 && (op == OP_CAS || op == OP_RMW || op == OP_STORE) {
+            if !is_blocked && lop == OP_LOAD && laddr == addr && addr != 0 && (op == OP_CAS || op == OP_RMW || op == OP_STORE || op == OP_AFTER) {
                 st.window_preempts += 1;
             }
             st.current = next;
@@ -363,7 +364,9 @@ impl Shared {
             }
         }
         if !is_blocked {
-            st.last[me] = (op, addr);
+            if op != OP_AFTER {
+                st.last[me] = (op, addr);
+            }
         } else if st.status[me] == Status::Blocked {
             st.status[me] = Status::Ready;
         }
